@@ -2,7 +2,7 @@
 
 use crate::common::*;
 use crate::engine::*;
-use crate::spy_alloc::capture;
+use crate::spy_alloc::{capture, capture_full};
 use crate::suites::*;
 use crate::tape::Sm;
 use crate::{dispatch, ensure};
@@ -96,6 +96,9 @@ impl Property for C20 {
             }
         }
         v.push(("debug-control-detected".into(), m));
+        v.push(("consumed-by-part2:ok".into(), m));
+        v.push(("consumed-by-part2:err".into(), m));
+        v.push(("consumed-by-refresh-part2:ok".into(), m));
         v
     }
     fn check(&self, suite: SuiteId, case: &Case, ctx: &mut Ctx) -> CheckResult {
@@ -353,6 +356,7 @@ fn check<C: Suite>(case: &Case, ctx: &mut Ctx) -> CheckResult {
         ctx.label("zeroize:SigningNonces");
     }
     // ---- DKG packages
+    let keys_ids = keys.ids.clone();
     let run = match keys.dkg {
         Some(r) => r,
         None => dkg_rounds::<C>(shape, &keys.ids, rng.next(), "C20")?,
@@ -389,6 +393,71 @@ fn check<C: Suite>(case: &Case, ctx: &mut Ctx) -> CheckResult {
         ctx.eval(&format!("zeroize,dkg-round2-Package,{desc}"), true);
         ensure!(ctx, m.signing_share().to_scalar() == z, "C20/zeroize-leaves-secret/dkg-round2-Package", "round2::Package::zeroize left a non-zero share");
         ctx.label("zeroize:dkg-round2-Package");
+    }
+    // ---- a round-one secret package ends its life inside the function that consumes it (dkg::part2 takes it by
+    // value): the heap storage the package occupied must be wiped when that function lets go of it, whichever way
+    // the function ends. The package's own blocks are identified by address: they are the ones allocated while the
+    // clone handed to part2 was made.
+    {
+        let (r1, _) = dkg_inputs_for(&run, &me);
+        for variant in ["ok", "err"] {
+            let sp: dkg::round1::SecretPackage<C> = run.r1_secret[&me].clone();
+            let secrets = sp.coefficients();
+            let lm = limbs(&secrets.iter().map(raw::<C>).collect::<Vec<_>>());
+            if lm.is_empty() {
+                continue;
+            }
+            let mut input = r1.clone();
+            if variant == "err" {
+                // a missing contribution: part2 returns an error after it has taken the package
+                let k = *input.keys().next().unwrap();
+                input.remove(&k);
+            }
+            ctx.eval(&format!("consumed,dkg-part2-{variant},{desc}"), true);
+            let (owned_pkg, allocs, _) = capture_full(|| black_box(sp.clone()));
+            let owned: Vec<(usize, usize)> = allocs.into_iter().filter(|(_, sz)| *sz >= lm.len() * 8).collect();
+            let (res, _, freed) = capture_full(move || dkg::part2(owned_pkg, black_box(&input)).map(|(a, b)| (black_box(a), black_box(b))));
+            let mut seen = 0;
+            for (addr, content) in &freed {
+                if owned.iter().any(|(a, sz)| a == addr && *sz == content.len()) {
+                    seen += 1;
+                    for l in &lm {
+                        ensure!(ctx, !find(std::slice::from_ref(content), l), "C20/secret-left-after-drop/dkg-round1-SecretPackage-consumed-by-part2", "dkg::part2 ({variant} path) released the coefficient storage of the round-one secret package it consumed with a limb of a secret coefficient ({}) still in it ({desc})", hex::encode(l));
+                    }
+                }
+            }
+            if seen > 0 {
+                ctx.label(&format!("consumed-by-part2:{variant}"));
+            }
+            drop(res);
+        }
+    }
+    // ---- the same for the distributed refresh: refresh_dkg_part2 consumes the refresh round-one secret package
+    {
+        let rr = crate::props::c10::dkg_refresh_rounds::<C>(&keys_ids, shape.t, rng.next(), "C20")?;
+        let (r1, _) = crate::props::c10::dkg_refresh_inputs(&rr, &me);
+        let sp: dkg::round1::SecretPackage<C> = rr.r1_secret[&me].clone();
+        let secrets: Vec<Sc<C>> = sp.coefficients().into_iter().filter(|c| *c != z).collect();
+        let lm = limbs(&secrets.iter().map(raw::<C>).collect::<Vec<_>>());
+        if !lm.is_empty() {
+            ctx.eval(&format!("consumed,refresh-dkg-part2,{desc}"), true);
+            let (owned_pkg, allocs, _) = capture_full(|| black_box(sp.clone()));
+            let owned: Vec<(usize, usize)> = allocs.into_iter().filter(|(_, sz)| *sz >= lm.len() * 8).collect();
+            let (res, _, freed) = capture_full(move || frost::keys::refresh::refresh_dkg_part2(owned_pkg, black_box(&r1)).map(|(a, b)| (black_box(a), black_box(b))));
+            let mut seen = 0;
+            for (addr, content) in &freed {
+                if owned.iter().any(|(a, sz)| a == addr && *sz == content.len()) {
+                    seen += 1;
+                    for l in &lm {
+                        ensure!(ctx, !find(std::slice::from_ref(content), l), "C20/secret-left-after-drop/refresh-round1-SecretPackage-consumed-by-part2", "refresh_dkg_part2 released the coefficient storage of the secret package it consumed with a limb of a secret coefficient ({}) still in it ({desc})", hex::encode(l));
+                    }
+                }
+            }
+            if seen > 0 && res.is_ok() {
+                ctx.label("consumed-by-refresh-part2:ok");
+            }
+            drop(res);
+        }
     }
     // ---- refresh variant of the round-one secret package
     {
